@@ -145,6 +145,11 @@ type Frontend struct {
 
 	logic frontend.TrackerLogic
 	Config
+
+	// stopping is set, under mu, when Stop begins. From then on requests are
+	// turned away instead of being counted in wg.
+	mu       sync.Mutex
+	stopping bool
 }
 
 // NewFrontend creates a new instance of an HTTP Frontend that asynchronously
@@ -249,8 +254,27 @@ func NewFrontend(logic frontend.TrackerLogic, provided Config) (*Frontend, error
 	return f, nil
 }
 
+// enter counts a request in f.wg unless Stop has begun. Shutdown closes idle
+// connections and stops waiting for them, but a request that is being read on
+// such a connection at that instant is still handed to its handler: those
+// requests are turned away here, so that nothing runs once Stop has completed.
+func (f *Frontend) enter(w http.ResponseWriter) bool {
+	f.mu.Lock()
+	defer f.mu.Unlock()
+	if f.stopping {
+		http.Error(w, "shutting down", http.StatusServiceUnavailable)
+		return false
+	}
+	f.wg.Add(1)
+	return true
+}
+
 // Stop provides a thread-safe way to shutdown a currently running Frontend.
 func (f *Frontend) Stop() stop.Result {
+	f.mu.Lock()
+	f.stopping = true
+	f.mu.Unlock()
+
 	stopGroup := stop.NewGroup()
 
 	if f.srv != nil {
@@ -323,6 +347,11 @@ func injectRouteParamsToContext(ctx context.Context, ps httprouter.Params) conte
 
 // announceRoute parses and responds to an Announce.
 func (f *Frontend) announceRoute(w http.ResponseWriter, r *http.Request, ps httprouter.Params) {
+	if !f.enter(w) {
+		return
+	}
+	defer f.wg.Done()
+
 	var err error
 	var start time.Time
 	if f.EnableRequestTiming {
@@ -368,6 +397,11 @@ func (f *Frontend) announceRoute(w http.ResponseWriter, r *http.Request, ps http
 
 // scrapeRoute parses and responds to a Scrape.
 func (f *Frontend) scrapeRoute(w http.ResponseWriter, r *http.Request, ps httprouter.Params) {
+	if !f.enter(w) {
+		return
+	}
+	defer f.wg.Done()
+
 	var err error
 	var start time.Time
 	if f.EnableRequestTiming {
